@@ -391,16 +391,16 @@ func RunC04(tier string, args []string) int {
 		samples = []string{c04Case{Alg: world.SHA256EC, Signer: 3, AKI: 0, Path: "refresh", Flip: -1}.String(), c04Case{Alg: world.SHA256RSA, Signer: 0, AKI: 1, Path: "first-load", Flip: 1234}.String()}
 	}
 	cov := fw.Coverage{
-		"evaluations":         evals,
-		"distinct_nontrivial": evals - complete - incomplete,
-		"rule":                "signature algorithm (10 supported + RSA-PSS + Ed25519 + unknown OID) x signer (issuing CA, configured trusted signer, CA without KeyUsage, sibling CA with identical DN, end-entity's own key, unrelated key, CA whose KeyUsage lacks cRLSign, other CA) x AKI form (6) x intake path (first load, refresh) x good/bad signature; plus every single-bit flip of tbsCertList|signatureAlgorithm|signatureValue of one EC and one RSA seed. Non-trivial = cases whose CRL is NOT authentic by construction (the direction the property constrains); authentic cases are counted as completeness information only.",
-		"samples":             samples,
-		"bitflip_cases":       flips,
-		"premise_false":       premiseFalse,
-		"authentic_accepted":  complete,
+		"evaluations":                   evals,
+		"distinct_nontrivial":           evals - complete - incomplete,
+		"rule":                          "signature algorithm (10 supported + RSA-PSS + Ed25519 + unknown OID) x signer (issuing CA, configured trusted signer, CA without KeyUsage, sibling CA with identical DN, end-entity's own key, unrelated key, CA whose KeyUsage lacks cRLSign, other CA) x AKI form (6) x intake path (first load, refresh) x good/bad signature; plus every single-bit flip of tbsCertList|signatureAlgorithm|signatureValue of one EC and one RSA seed. Non-trivial = cases whose CRL is NOT authentic by construction (the direction the property constrains); authentic cases are counted as completeness information only.",
+		"samples":                       samples,
+		"bitflip_cases":                 flips,
+		"premise_false":                 premiseFalse,
+		"authentic_accepted":            complete,
 		"authentic_rejected_not_judged": incomplete,
-		"outcome_classes":     outcomes.Counts(),
-		"exhaustive":          true,
+		"outcome_classes":               outcomes.Counts(),
+		"exhaustive":                    true,
 	}
 	return chk.Finish(cov)
 }
